@@ -10,7 +10,7 @@
 (*  T.script = the keyboard script                                         *)
 (*  T.ev[i]  = [w thread, g gate, a argument]  (a: the <<pt, k>> printed   *)
 (*             for "emit", the line for "input", else 0)                   *)
-(*  T.final  = [stream, maxp, hasomen] of the real run                     *)
+(*  T.final  = [stream, maxp, hasomen, ng] of the real run                 *)
 (* A rejection is reported as implementation drift, never as a verdict.    *)
 (***************************************************************************)
 EXTENDS Session, TLCExt, Json, IOUtils
@@ -23,11 +23,11 @@ tvars == <<vars, tid, l>>
 T == Traces[tid]
 
 TInit == /\ tid \in 1..NT /\ l = 1
-         /\ sav = [maxp |-> T.init.maxp, hasomen |-> T.init.hasomen, ognum |-> T.init.ognum]
+         /\ sav = [maxp |-> T.init.maxp, hasomen |-> T.init.hasomen, ognum |-> T.init.ognum, ng |-> T.init.ng]
          /\ omn = [pt |-> T.init.opt, pos |-> T.init.opos]
          /\ sess = T.init.sess /\ script = T.script /\ spos = 1
          /\ mpc = "start" /\ q = <<>> /\ cur = 0 /\ j = 0 /\ sexit = FALSE /\ oexit = FALSE /\ ognum = 0
-         /\ cfgomen = FALSE /\ placeholder = FALSE
+         /\ cfgomen = FALSE /\ placeholder = FALSE /\ ng = 0 /\ cnt = 0
          /\ kpc = "nothread" /\ kline = "" /\ qseen = FALSE
          /\ stream = <<>>
 
@@ -52,7 +52,8 @@ Consumed == l = Len(T.ev) + 1
 FinalOK == /\ stream = [i \in DOMAIN T.final.stream |-> <<T.final.stream[i][1], T.final.stream[i][2]>>]
            /\ mpc = "done"
            /\ sav.maxp = T.final.maxp /\ sav.hasomen = T.final.hasomen
+           /\ sav.ng = T.final.ng            \* report.num_guesses as written to the save file
 Report == /\ ((Consumed /\ FinalOK) => PrintT(<<"ACCEPT", T.tid>>))
-          /\ ((Consumed /\ ~FinalOK) => PrintT(<<"STUCK", T.tid, l, "final state differs", mpc, sav.maxp, sav.hasomen, Len(stream)>>))
+          /\ ((Consumed /\ ~FinalOK) => PrintT(<<"STUCK", T.tid, l, "final state differs", mpc, sav.maxp, sav.hasomen, sav.ng, Len(stream)>>))
           /\ ((~Consumed /\ ~ENABLED TNext) => PrintT(<<"STUCK", T.tid, l, Ev.g, mpc, kpc>>))
 =============================================================================
